@@ -204,6 +204,6 @@ def check(tier, seed):
                       trusted=['clang-14 front end and -O2 code generation', 'LLVM IR semantics as modelled by irflow', 'x86 lane table', 'reference stages in gen/c13.py'],
                       floors=load_floors('C13', tier),
                       assumptions=['exact (real) arithmetic on the listed families only: the n*eps*||A|| and cond(A)-scaled orthogonality bounds are NOT decided (DESIGN.md §6)', 'MGSRPiv: the pivot search is data-dependent and not analysed'],
-                      extra_cov={'not_decided': 'floating-point bounds; matrices outside the Q0*R0 families; pivoted QR'})
+                      extra_cov={'not_decided': 'floating-point bounds; matrices outside the Q0*R0 families; pivoted QR for n > 3 (4 in double precision, thorough)'})
     finally:
         R.cleanup()
